@@ -114,8 +114,9 @@ func (d *DefSpec) raw(withName bool) RV {
 // ---- the Go-side reference (spec) used by the direct check D ----
 
 // RefAttr is an attribute as the *definition* declares it (after the rules the Object
-// specification gives: given_or_derived is optional, Optional[T] defaults to undef, a constant's
-// type is the generic type of its value).
+// specification gives: given_or_derived is optional and undef when not given - its type is made an
+// Optional unless it accepts undef already -, Optional[T] defaults to undef, a constant's type is the
+// generic type of its value).
 type RefAttr struct {
 	Name   string
 	Kind   string
@@ -187,12 +188,12 @@ func generalizeOf(v RV) (Ty, bool) {
 
 func effAttr(a AttrSpec) RefAttr {
 	r := RefAttr{Name: a.Name, Kind: a.Kind, Ty: a.Type, Final: a.Final != nil && *a.Final || a.Kind == "constant"}
-	if a.Kind == "given_or_derived" && !a.Type.isOpt() {
+	if a.Kind == "given_or_derived" && !a.Type.acceptsUndef() {
 		r.Ty = tOpt(a.Type)
 	}
 	if a.HasValue {
 		r.HasDef, r.Def = true, a.Value
-	} else if r.Ty.isOpt() {
+	} else if r.Ty.isOpt() || a.Kind == "given_or_derived" {
 		r.HasDef, r.Def = true, vUndef()
 	}
 	return r
